@@ -53,7 +53,7 @@ func (h *harness) blockTxImage(c chainSpec, where string) *memory.Database {
 		h.res.Violate(lib.Violation{Sig: "blocktx-migrate-" + o.ret, What: o.errText, Replay: btReplay{c, "run Migrate", 0}})
 		return nil
 	}
-	h.bt.transition(c, d, o.final, "return", o.ret, where)
+	h.bt.transition(c, d, o.final, "return", o.retClass(), where)
 	if o.ret == "done" {
 		checkFinal(h.res, c, c, o.final)
 	}
@@ -119,7 +119,7 @@ func (h *harness) blockTxAll() {
 				h.res.Violate(lib.Violation{Sig: "blocktx-migrate-" + o.ret, What: o.errText, Replay: btReplay{c, "run Migrate", 0}})
 				continue
 			}
-			h.bt.transition(c, d, o.final, "return", o.ret, "corrupt")
+			h.bt.transition(c, d, o.final, "return", o.retClass(), "corrupt")
 			if o.ret == "done" {
 				// the damage was not noticed: then nothing readable may have been lost
 				for blk := uint64(0); blk <= c.height(); blk++ {
@@ -293,7 +293,7 @@ func (h *harness) resumeAndCheck(c chainSpec, img *memory.Database, twin map[str
 			h.res.Violate(lib.Violation{Sig: "blocktx-migrate-" + o.ret, What: o.errText, Replay: btReplay{specOfImage(c, cur), "run Migrate", 0}})
 			return
 		}
-		h.bt.transition(c, cur, o.final, "return", o.ret, where)
+		h.bt.transition(c, cur, o.final, "return", o.retClass(), where)
 		if o.ret == "failed" {
 			h.res.Violate(lib.Violation{Sig: "blocktx-resume-fails", What: "resumed migration returns an error: " + o.errText,
 				Replay: btReplay{specOfImage(c, cur), "run Migrate", 0}})
@@ -340,6 +340,12 @@ func (h *harness) blockTxHistory(c chainSpec, budget int) {
 	h.bt.transition(c, d, tw.final, "return", "done", "twin")
 	checkFinal(h.res, c, c, tw.final)
 	twin := dump(tw.final)
+	h.res.Hit("bt-layout-differential")
+	if why := layoutDifferential(c, d, tw.final); why != "" {
+		h.res.Violate(lib.Violation{Sig: "blocktx-old-and-new-layout-readers-disagree",
+			What:   "txlayout.TransactionLayoutPerTx on the previous-layout database vs txlayout.TransactionLayoutCombined on the migrated one: " + why,
+			Replay: btReplay{c, "build spec, read with the per-tx layout, run Migrate, read with the combined layout", 0}})
+	}
 
 	for _, inflate := range []bool{true, false} {
 		// crash after every commit of an otherwise uninterrupted run
@@ -443,7 +449,7 @@ func (h *harness) blockTxWriteFailures() {
 					continue
 				}
 				kind := "return"
-				h.bt.transitionW(c, d, o.final, kind, o.ret, "write-failure", o.failedWrites > 0)
+				h.bt.transitionW(c, d, o.final, kind, o.retClass(), "write-failure", o.failedWrites > 0)
 				h.resumeAndCheck(c, o.final, nil, "resume-after-write-failure", 0)
 			}
 		}
@@ -537,7 +543,7 @@ func (h *harness) blockTxReadFaultCase(c chainSpec, d *memory.Database, twin map
 	if o.failedReads > 0 && o.ret == "failed" {
 		h.bt.ingestErrorTransition(c, d, o.final, rp)
 	} else {
-		h.bt.transition(c, d, o.final, "return", o.ret, "read-fault-not-hit-or-absorbed")
+		h.bt.transition(c, d, o.final, "return", o.retClass(), "read-fault-not-hit-or-absorbed")
 	}
 	if o.ret == "done" {
 		checkFinal(h.res, c, c, o.final)
@@ -554,6 +560,133 @@ func (h *harness) blockTxReadFaultCase(c chainSpec, d *memory.Database, twin map
 	{
 		if same, why := sameDumpModuloEmpty(c, dump(r.final), twin); !same {
 			h.res.Violate(lib.Violation{Sig: "blocktx-final-db-differs-from-uninterrupted-run", What: "after a read error and a rerun: " + why, Replay: rp})
+		}
+	}
+}
+
+// blockTxFinalStep: the three commits of Migrate's FINAL step — the back-fill batch of the empty blocks, then the
+// two DeletePrefix of clearOldBuckets — each as a crash point and as a failing write (once / from then on), on
+// chains whose final step has work to do (empty blocks outside every pass), has none, or is the whole run
+// (no old entries at all). Model steps crashFinal / crashClear / writeFail / failClear; a failing DeletePrefix is
+// the only way Migrate returns a NIL state together with an error. Every image is resumed to completion and
+// compared with the undisturbed twin.
+func (h *harness) blockTxFinalStep() {
+	gap := append(append(repeatInt(1, 10), repeatInt(0, 10)...), 2)
+	specs := []chainSpec{
+		{Seed: 31, Counts: append(repeatInt(0, 10), repeatInt(2, 5)...)}, // empty blocks below the aligned first block
+		{Seed: 32, Counts: gap},              // an empty aligned range between two ranges with transactions
+		{Seed: 33, Counts: repeatInt(0, 12)}, // nothing but empty blocks: the final step is the whole run
+		{Seed: 34, Counts: repeatInt(1, 12)}, // no empty block: the back-fill batch is empty
+	}
+	for _, c := range specs {
+		lay := make([]byte, len(c.Counts))
+		for b, n := range c.Counts {
+			lay[b] = 'o'
+			if n == 0 {
+				lay[b] = '-'
+			}
+		}
+		c.Layout = string(lay)
+		d, err := c.build()
+		if err != nil {
+			h.res.Fatalf("fixture does not build: %v", err)
+			continue
+		}
+		o := runBlockTx(d, btPlan{}, true)
+		if o.ret != "done" || o.commits < 3 || len(o.images) != o.commits {
+			h.res.Fatalf("final-step family: the undisturbed run returned %s %s after %d commits", o.ret, o.errText, o.commits)
+			continue
+		}
+		twin := dump(o.final)
+		n := o.commits
+		for k := n - 2; k <= n; k++ {
+			pos := []string{"backfill", "clear-1", "clear-2"}[k-(n-2)]
+			// the process dies right after commit k
+			h.res.Case(fmt.Sprintf("final-step|%d|crash|%s", c.Seed, pos), true)
+			h.res.Hit("bt-final-step:crash-after-" + pos)
+			h.bt.transition(c, d, o.images[k-1], "crash", "", "final-step:crash-after-"+pos)
+			h.resumeAndCheck(c, o.images[k-1], twin, "resume-after-final-step-crash", 0)
+			// the write that would be commit k fails
+			for _, all := range []bool{false, true} {
+				plan := btPlan{FailAt: k, FailAll: all}
+				of := runBlockTxD(d, plan, false, 3*time.Second, false)
+				h.res.Case(fmt.Sprintf("final-step|%d|%+v", c.Seed, plan), true)
+				h.res.Hit("bt-final-step:fail-" + pos + ":" + of.retClass())
+				rp := map[string]any{"spec": c, "plan": plan, "what": "run Migrate; commit attempt " + fmt.Sprint(k) + " (" + pos + " of the final step) fails"}
+				switch {
+				case of.ret == "hang" || of.ret == "panic":
+					h.res.Violate(lib.Violation{Sig: "blocktx-migrate-" + of.ret + "-on-final-step-write-error", What: of.errText, Replay: rp})
+					continue
+				case of.ret == "done" && pos == "backfill" && !checkFinal(h.res, c, c, of.final):
+					h.res.Violate(lib.Violation{Sig: "blocktx-swallows-failed-batch-write",
+						What: "the back-fill batch write failed, Migrate returned (nil, nil) and blocks are unreadable", Replay: rp})
+					continue
+				}
+				h.bt.transitionW(c, d, of.final, "return", of.retClass(), "final-step:fail-"+pos, of.failedWrites > 0)
+				h.resumeAndCheck(c, of.final, twin, "resume-after-final-step-write-failure", 0)
+			}
+		}
+	}
+}
+
+// blockTxCancelAtReads: the context is cancelled at EVERY database read of an undisturbed run (header fetches,
+// Has probes, the first-block scans — i.e. while the source, the ingestors or the committer are busy, and in the
+// final step), alternately with and without the flush-size inflation. The run must return gracefully; the image
+// must be a cancelled pass of the model (everything emitted is committed); the resumed run must reach the
+// undisturbed twin.
+func (h *harness) blockTxCancelAtReads() {
+	gap := append(append(repeatInt(1, 10), repeatInt(0, 10)...), repeatInt(2, 5)...)
+	sparse := make([]int, 27)
+	for b := range sparse {
+		if b%3 != 1 {
+			sparse[b] = 1
+		}
+	}
+	for si, counts := range [][]int{repeatInt(2, 35), sparse, gap} {
+		c := chainSpec{Seed: uint64(41 + si), Counts: counts}
+		lay := make([]byte, len(counts))
+		for b, n := range counts {
+			lay[b] = 'o'
+			if n == 0 {
+				lay[b] = '-'
+			}
+		}
+		c.Layout = string(lay)
+		d, err := c.build()
+		if err != nil {
+			h.res.Fatalf("fixture does not build: %v", err)
+			continue
+		}
+		tw := runBlockTx(d, btPlan{}, false)
+		if tw.ret != "done" {
+			h.res.Fatalf("cancel-at-read family: the undisturbed run returned %s %s", tw.ret, tw.errText)
+			continue
+		}
+		twin := dump(tw.final)
+		step := int64(1)
+		if !h.f.Thorough() && tw.gets > 90 {
+			step = tw.gets/90 + 1
+		}
+		for g := int64(1); g <= tw.gets+1; g += step {
+			plan := btPlan{CancelAtGet: g, Inflate: g%2 == 0}
+			oc := runBlockTx(d, plan, false)
+			h.res.Case(fmt.Sprintf("cancel-at-read|%d|%+v", c.Seed, plan), true)
+			h.res.Hit("bt-cancel-at-every-read:" + oc.ret)
+			if oc.ret == "hang" || oc.ret == "panic" || oc.ret == "failed" {
+				h.res.Violate(lib.Violation{Sig: "blocktx-cancelled-run-" + oc.ret, What: oc.errText,
+					Replay: map[string]any{"spec": c, "plan": plan, "what": "run Migrate, cancel the context at this read"}})
+				continue
+			}
+			h.bt.transition(c, d, oc.final, "return", oc.retClass(), fmt.Sprintf("cancel-at-read-%d", g))
+			if oc.ret == "done" {
+				checkFinal(h.res, c, c, oc.final)
+				if same, why := sameDump(dump(oc.final), twin); !same {
+					h.res.Violate(lib.Violation{Sig: "blocktx-final-db-differs-from-uninterrupted-run", What: "cancelled late, completed: " + why,
+						Replay: btReplay{c, "run Migrate with a cancellation at read " + fmt.Sprint(g), 0}})
+				}
+				continue
+			}
+			h.resumeAndCheck(c, oc.final, twin, "resume-after-cancel-at-read", 0)
 		}
 	}
 }
